@@ -101,6 +101,12 @@ const (
 	BCleanupPanicThenSkip     // registers a cleanup that panics, then the body skips
 	BCleanupPanicThenReject   // registers a cleanup that panics, then a draw of the body is rejected
 	BCleanupNilMapThenSkip    // registers a cleanup that ends in a run-time error, then the body skips
+	BRcpCtxOnlyInCleanup
+	BRcpPanicThenCtxInOlderCleanup
+	BRcpSkipThenCtxInOlderCleanup
+	BRcpOldestRegistersThenPanics
+	BRcpOldestRegistersThenSkips
+	BRcpOldestRegistersThenFatal
 	numBeh
 )
 
@@ -113,7 +119,9 @@ var behNames = [...]string{"pass", "Skip", "Errorf", "Errorf;Skip", "Fail", "Fat
 	"Cleanup(Skip);Fatalf", "Cleanup(Skip);panic", "Cleanup(rejected-draw);Fatalf", "Cleanup(rejected-draw);panic", "Errorf;Fatalf@A",
 	"rcp:two-panicking-cleanups-above-a-plain-one", "rcp:Fatalf-cleanup-and-Skip-cleanup-above-plain-ones", "rcp:three-abnormal-cleanups-interleaved", "rcp:nil-cleanup-between-real-ones", "rcp:Custom-drawn-inside-a-cleanup",
 	"Cleanup(Skip)+Cleanup(panic)", "Cleanup(Skip)+Cleanup(Fatalf)", "Cleanup(rejected-draw)+Cleanup(panic)", "Cleanup(panic)+Cleanup(Skip)", "Cleanup(Errorf)+Cleanup(Skip)",
-	"Cleanup(panic);Skip", "Cleanup(panic);rejected-draw", "Cleanup(nil-map-write);Skip"}
+	"Cleanup(panic);Skip", "Cleanup(panic);rejected-draw", "Cleanup(nil-map-write);Skip",
+	"rcp:Context-only-inside-a-cleanup", "rcp:newer-cleanup-panics-then-older-one-asks-for-Context", "rcp:newer-cleanup-skips-then-older-one-asks-for-Context",
+	"rcp:oldest-cleanup-registers-another-then-panics", "rcp:oldest-cleanup-registers-another-then-skips", "rcp:oldest-cleanup-registers-another-then-Fatalf"}
 
 func (b Beh) String() string { return behNames[b] }
 
@@ -133,7 +141,7 @@ func (b Beh) Falsifies() bool {
 	switch b {
 	case BRcpTwoPanickingCleanups, BRcpFatalAndSkipCleanups, BRcpThreeAbnormalCleanups:
 		return true
-	case BRcpNilCleanup, BRcpCustomDrawnInCleanup:
+	case BRcpNilCleanup, BRcpCustomDrawnInCleanup, BRcpCtxOnlyInCleanup, BRcpSkipThenCtxInOlderCleanup, BRcpOldestRegistersThenSkips:
 		return false
 	}
 	return true
@@ -142,7 +150,7 @@ func (b Beh) Falsifies() bool {
 // Skips: does b (also) skip?
 func (b Beh) Skips() bool {
 	switch b {
-	case BSkip, BErrorfSkip, BSkipNow, BSkipf, BRcpThenSkip, BCleanupErrorfSkip, BCleanupSkip, BRcpCleanupSkips, BRcpSkipWithCleanupErrorf:
+	case BSkip, BErrorfSkip, BSkipNow, BSkipf, BRcpThenSkip, BCleanupErrorfSkip, BCleanupSkip, BRcpCleanupSkips, BRcpSkipWithCleanupErrorf, BRcpSkipThenCtxInOlderCleanup, BRcpOldestRegistersThenSkips:
 		return true
 	}
 	return false
